@@ -22,6 +22,18 @@ CHECKS = {
         note="Trusted: z3, CPython, forksym proxies; the file is an uninterpreted array (reads return (offset,length) slices; no short reads). "
              "Family 'data': all numbers unbounded, <=2/<=3 range specs, chunk loops unwound K=3/4 with unwinding assertion. Family 'framing': "
              "multipart Content-Length digit-exact for sizes <10^4 / <10^6. Every path's model is re-run on a real temp file with the unshimmed code."),
+    "C06": dict(
+        technique="fork-on-branch symbolic execution of the real ASGI streaming responses on a virtual-time asyncio loop: producer/send delays, ping interval and disconnect instant are z3 integers, timer order decided by the solver; sequential WSGI streaming with symbolic close/raise points",
+        design_ref="DESIGN.md §4 C06",
+        note="PARTIAL CLAIM: the WSGI SendEventResponse relay (real pool thread + queue.Queue) is NOT covered - thread interleavings are not solver "
+             "variables (the early-close deadlock the property text describes lives there). Covered: ASGI StreamResponse/SendEventResponse "
+             "(1 item general, 3 items with a zero-delay producer; thorough: 2 items + trailing producer delay), WSGI StreamResponse/NextResponse. "
+             "asyncio's own scheduler code runs for real on a virtual clock; ticks bounded (delays 0..20, ping 1..20, disconnect 0..60)."),
+    "C09": dict(
+        technique="fork-on-branch symbolic execution of the real Subpaths/Hosts dispatch over symbolic characters (z3), oracle as z3 formulas / z3 regex-language membership",
+        design_ref="DESIGN.md §4 C09",
+        note="Trusted: z3 (incl. its sequence/regex theory for the host oracle), CPython, forksym + ReShim. String lengths, table sizes (2 entries), "
+             "nesting depth and the host pattern tables are enumerated; all characters are solver variables (paths full Unicode, Host Latin-1)."),
     "C11": dict(
         technique="fork-on-branch symbolic execution of the real WebSocket wrapper: one inductive step from every (client,application) state pair plus bounded histories, state/call/event choices decided by z3, payloads symbolic",
         design_ref="DESIGN.md §4 C11",
@@ -34,6 +46,12 @@ CHECKS = {
         note="Trusted: z3, CPython dict/list, forksym. Pre-states are all pair lists up to the stated length (every reachable state is one); "
              "keys/values are unbounded integers (code is type-agnostic). The QueryParams string round trip (urlencode/parse_qsl) is outside "
              "the engine's reach and is not claimed."),
+    "C19": dict(
+        technique="fork-on-branch symbolic execution of the real SSE encoder over symbolic Unicode text, decoded by a symbolically executed WHATWG event-stream parser; equality decided by z3",
+        design_ref="DESIGN.md §4 C19",
+        note="Trusted: z3, CPython codecs, forksym; the WHATWG parser oracle written in the harness. Symbolic characters cross the encoder's "
+             "f-strings as placeholders of the same encoding class (ASCII / non-ASCII), which is sound while the encoder only concatenates and "
+             "encodes them. Bounds: data <=3/<=5 chars, name/id <=2/<=3; charsets utf-8 and latin-1."),
     "C03": dict(
         technique="fork-on-branch symbolic execution of the real parse_range with z3 (unbounded LIA integers; ReShim-interpreted regex over symbolic Latin-1 chars)",
         design_ref="DESIGN.md §4 C03",
